@@ -133,3 +133,66 @@ mod playback {
     use super::*;
     include!("/verif/.build/playback/vm_fuel.rs");
 }
+
+// @verif props=C13 tier=quick cap=400 group=core fns=FuelTracker::{new,track,remaining,consumed},fuel_for_instruction
+/// Instructions with a size payload (collection builders, unpacking, calls) for EVERY payload n and EVERY budget b
+/// of a tracker that already took <=1 unit step: whatever the instruction is charged (c = fuel_for_instruction),
+/// charging it never panics (no arithmetic overflow), succeeds if b exceeds the cost so far and fails if b is
+/// below it, the reported levels add up to b afterwards, and a larger budget never fails where a smaller one
+/// succeeded.
+#[kani::proof]
+#[kani::unwind(3)]
+fn c13_fuel_sized_instructions_any_cost() {
+    let n: usize = kani::any();
+    let k: u8 = kani::any();
+    kani::assume(k < 9);
+    let instr = match k {
+        0 => Instruction::BuildMap(n),
+        1 => Instruction::BuildKwargs(n),
+        2 => Instruction::BuildList(Some(n)),
+        3 => Instruction::BuildTuple(Some(n)),
+        4 => Instruction::UnpackList(n),
+        5 => Instruction::UnpackLists(n),
+        6 => Instruction::CallFunction("f", Some(n as u16)),
+        7 => Instruction::BuildList(None),
+        _ => Instruction::CallMethod("m", Some(n as u16)),
+    };
+    let c = fuel_for_instruction(&instr);
+    let b1: u64 = kani::any();
+    let b2: u64 = kani::any();
+    kani::assume(b1 <= b2);
+    let mut t1 = FuelTracker::new(b1);
+    let mut t2 = FuelTracker::new(b2);
+    let first: bool = kani::any();
+    let mut cost: u128 = 0;
+    let mut live1 = true;
+    let mut live2 = true;
+    if first {
+        live1 = track_ok(&mut t1, true);
+        live2 = track_ok(&mut t2, true);
+        cost = 1;
+    }
+    let r1 = t1.track(&instr);
+    let ok1 = r1.is_ok();
+    core::mem::forget(r1);
+    let r2 = t2.track(&instr);
+    let ok2 = r2.is_ok();
+    core::mem::forget(r2);
+    cost += c as u128;
+    if live1 && c != 0 {
+        if (b1 as u128) > cost {
+            assert!(ok1);
+        }
+        if (b1 as u128) < cost {
+            assert!(!ok1);
+        }
+    }
+    if live1 && live2 && ok1 {
+        assert!(ok2);
+    }
+    assert!(t1.consumed() as u128 + t1.remaining() as u128 == b1 as u128);
+    assert!(t2.consumed() as u128 + t2.remaining() as u128 == b2 as u128);
+    kani::cover!(ok1 && first && n > 3);
+    kani::cover!(!ok1 && live1 && b1 >= 2);
+    core::mem::forget(instr);
+}
